@@ -6,8 +6,11 @@ p_mem_set_vtable), /proc/self/fd, mappings (the /proc/self/maps lines of the seq
 scratch library, sem_open handles, anonymous mappings), /dev/shm names of the sequence, native TLS keys — and
 diffed with the model.  Sequences mix containers, INI, hashes, errors, directories, sockets (refused connect to
 a closed loopback port, timed-out connect and accept), semaphores, shm and shm buffers opened with equal /
-different sizes, threads (joined and detached), TLS, locks, the library loader on a tiny .so, init/shutdown
-pairs, injected allocator failures (once / from k on / bit masks) and scripted system-call failures.
+different sizes, semaphores opened and re-created (access mode CREATE on an existing name), threads (joined and detached,
+with an extra reference), TLS, locks, the library loader on a tiny .so, I/O on closed sockets, init/shutdown pairs, injected
+allocator failures (once / from k on / bit masks) and scripted system-call failures (socket, fcntl(F_SETFL), sem_open, shm_open,
+ftruncate, mmap, dlopen, pthread_*; close interrupted by a signal in directed cases).  After every call the harness also reads
+every live object back through the public getters: a call that changes an object it is not allowed to change answers X.
 Every sequence ends by freeing whatever is left and shutting the library down: the last line must be all zeros.
 A `close` interposer counts closes of descriptors that are not open (fd_closed_once)."""
 import re
@@ -55,7 +58,7 @@ def call_pool(rng):
         "sock_udp_echo %d %d %s" % (sl(), sl(), e()), "sock_close %d %s" % (sl(), e()), "sock_io_closed %d %d %s" % (sl(), rng.randrange(7), e()), "dir_create_missing %s" % e(), "dir_remove_missing %s" % e(), "sock_free %d" % sl(), "sock_from_fd %d %s" % (sl(), e()),
         "sem_new %d %d %d %s" % (sl(), rng.randrange(3), rng.choice([0, 0, 1]), e()), "sem_cycle %d %s" % (sl(), e()), "sem_own %d" % sl(), "sem_free %d" % sl(),
         "shm_new %d %d %d %s" % (sl(), rng.randrange(3), rng.choice(SHM_SIZES), e()), "shm_own %d" % sl(), "shm_cycle %d %s" % (sl(), e()), "shm_free %d" % sl(),
-        "shmbuf_new %d %d %d %s" % (sl(), 3 + rng.randrange(3), rng.choice(SHM_SIZES), e()), "shmbuf_rw %d %s" % (sl(), e()), "shmbuf_own %d" % sl(),
+        "shmbuf_new %d %d %d %s" % (sl(), 3 + rng.randrange(3), rng.choice(SHM_SIZES), e()), "shmbuf_rw %d %s" % (sl(), e()), "shmbuf_fill %d %s" % (sl(), e()), "shmbuf_own %d" % sl(),
         "shmbuf_free %d" % sl(),
         "mutex_new %d" % sl(), "mutex_free %d" % sl(), "cond_new %d" % sl(), "cond_free %d" % sl(), "rwlock_new %d" % sl(), "rwlock_free %d" % sl(),
         "spin_new %d" % sl(), "spin_free %d" % sl(), "prof_new %d" % sl(), "prof_free %d" % sl(), "rwlockg_new %d" % sl(), "rwlockg_free %d" % sl(),
@@ -190,7 +193,7 @@ def run(chk):
         thorough = chk.tier == "thorough"
         rng = chk.rng
         cases = pv.load_corpus("C20") + directed_cases()
-        nrand = 1500 if thorough else 220
+        nrand = 1200 if thorough else 220
         lengths = [30, 80, 200, 400] if thorough else [20, 60, 120]
         cases += [gen_case(rng, rng.choice(lengths), chk) for _ in range(nrand)]
         found, corr, thm = diffrun.campaign(chk, fam, cases, proof_ok, detail, signature_of, "C20", batch=12, reset="begin")
